@@ -68,26 +68,26 @@ func descRels(rs []jsonapi.Rel) string {
 func c16Laws(r jsonapi.Rel) (key, detail string) {
 	inv := r.Invert()
 	if inv.Invert() != r {
-		return "invert-not-involutive", descRel(r)+" -> "+descRel(inv)+" -> "+descRel(inv.Invert())
+		return "invert-not-involutive", descRel(r) + " -> " + descRel(inv) + " -> " + descRel(inv.Invert())
 	}
 	n := r.Normalize()
 	if n2 := n.Normalize(); n2 != n {
-		return "normalize-not-idempotent", descRel(r)+" -> "+descRel(n)+" -> "+descRel(n2)
+		return "normalize-not-idempotent", descRel(r) + " -> " + descRel(n) + " -> " + descRel(n2)
 	}
 	if n != r && n != inv {
-		return "normalize-neither", descRel(r)+" -> "+descRel(n)
+		return "normalize-neither", descRel(r) + " -> " + descRel(n)
 	}
 	if r.ToName == "" && n != r {
-		return "normalize-oneway-changed", descRel(r)+" -> "+descRel(n)
+		return "normalize-oneway-changed", descRel(r) + " -> " + descRel(n)
 	}
 	twoWay := r.FromName != "" && r.ToName != ""
 	degenerate := r.FromType == r.ToType && r.FromName == r.ToName && r.ToOne != r.FromOne
 	if twoWay && !degenerate {
 		if ni := inv.Normalize(); ni != n {
-			return "normalize-pair-differs", descRel(r)+" -> "+descRel(n)+" but inverse -> "+descRel(ni)
+			return "normalize-pair-differs", descRel(r) + " -> " + descRel(n) + " but inverse -> " + descRel(ni)
 		}
 		if r.String() != inv.String() {
-			return "string-pair-differs", descRel(r)+fmt.Sprintf(": %q vs %q", r.String(), inv.String())
+			return "string-pair-differs", descRel(r) + fmt.Sprintf(": %q vs %q", r.String(), inv.String())
 		}
 	}
 	return "", ""
@@ -402,6 +402,18 @@ func runC16(c *ctx) {
 		{Name: "ab", Rels: map[string]jsonapi.Rel{"c": {FromType: "ab", FromName: "c", ToType: "x"}}},
 		{Name: "x"},
 	}, true)
+	// two-way pairs whose ends coincide once type and name are joined by some separator
+	for _, sep := range []string{"_", ".", "-", " ", "/", ":", ",", "\x00", ""} {
+		for card := 0; card < 4; card++ {
+			r := jsonapi.Rel{FromType: "a" + sep + "b", FromName: "c", ToOne: card&1 == 1, ToType: "a", ToName: "b" + sep + "c", FromOne: card&2 == 2}
+			c16Law(c, r, "corpus joined ends")
+			c16Law(c, r.Invert(), "corpus joined ends")
+			c16RelsCase(c, []jsonapi.Type{
+				{Name: r.FromType, Rels: map[string]jsonapi.Rel{r.FromName: r}},
+				{Name: r.ToType, Rels: map[string]jsonapi.Rel{r.ToName: r.Invert()}},
+			}, true)
+		}
+	}
 	// exhaustive over the small alphabet
 	for _, ft := range c16Names {
 		for _, fn := range c16Names {
